@@ -771,7 +771,7 @@ def exhaustive_cases():
 
 def run(chk):
     rng = chk.rng
-    nseq, maxlen = (3000, 12) if chk.tier == "quick" else (40000, 28)
+    nseq, maxlen = (3000, 12) if chk.tier == "quick" else (12000, 20)
     chk.theorems("props.C01", THEOREMS, ["theories/props/C01.vo", "theories/model/NamespaceObs.vo"])
     cases = corpus_cases()
     ncorpus = len(cases)
